@@ -231,7 +231,18 @@ fn error_cases(tables: &Tables) -> Vec<Failure> {
         ("join column missing on the queried side + DISTINCT + WHERE", format!("SELECT DISTINCT y FROM t INNER JOIN u::'{}' ON t.nosuch = u.k WHERE y > 0", tmp.paths[0])),
         ("join column missing on the queried side (aggregate)", format!("SELECT COUNT(*) FROM t INNER JOIN u::'{}' ON t.nosuch = u.k", tmp.paths[0])),
     ];
+    // the same mistakes against joined files without rows (empty file, only lines that are not rows of the joined table)
+    let tmp2 = sut::TempFiles::new(&[&b""[..], &b"garbage\n\n"[..]]);
+    let mut cases: Vec<(String, String)> = cases.iter().map(|(w, t)| (w.to_string(), t.clone())).collect();
+    for (fi, fname) in ["empty joined file", "joined file without rows"].iter().enumerate() {
+        for kind in ["INNER", "OUTER"] {
+            cases.push((format!("join column missing on the queried side, {}, {}", fname, kind), format!("SELECT * FROM t {} JOIN u::'{}' ON t.nosuch = u.k", kind, tmp2.paths[fi])));
+            cases.push((format!("join column missing on the queried side (ON reversed), {}, {}", fname, kind), format!("SELECT x FROM t {} JOIN u::'{}' ON u.k = t.nosuch", kind, tmp2.paths[fi])));
+            cases.push((format!("join column missing on the queried side (aggregate), {}, {}", fname, kind), format!("SELECT COUNT(*) FROM t {} JOIN u::'{}' ON t.nosuch = u.k", kind, tmp2.paths[fi])));
+        }
+    }
     for (what, text) in cases {
+        let what = what.as_str();
         let st = match sut::parse(&text) {
             Ok(s) => s,
             Err(_) => continue, // rejected at parse time: an error report
